@@ -183,6 +183,9 @@ def run(scn, keep_log=False):
         fe.server.decoder = proxy
         if scn['frontend'] == 'tw_udp':
             fe.server.framer.decoder = proxy
+        if scn['frontend'] == 'sync_serial':
+            # the serial server builds its single handler (and framer) in __init__
+            fe.server.handler.framer.decoder = proxy
         if scn.get('listen_only'):
             from pymodbus.device import ModbusControlBlock
             ModbusControlBlock().ListenOnly = True
